@@ -397,7 +397,8 @@ def handle (line : String) : String :=
           let args ← (← arr (← j.getObjVal? "args")).toList.mapM parseGTy
           let fj (fs : List (String × String)) : Json := Json.arr (fs.map (fun p => Json.arr #[Json.str p.1, Json.str p.2])).toArray
           let res := Generics.resolveChain chain args
-          pure (Json.mkObj [("id", id), ("fields", fj (Generics.renderFields res)),
+          pure (Json.mkObj [("id", id), ("fields", fj (Generics.renderFields (Generics.resolveHints chain args))),
+                            ("first_wins", fj (Generics.renderFields (Generics.hintsOfFirstWins res))),
                             ("appearance_order", fj (Generics.renderFields (Generics.resolveChainOld chain args))),
                             ("wf", Generics.chainWf chain), ("closed", res.all (fun p => Generics.closed p.2))])
       | "aggattr" => do
